@@ -143,7 +143,7 @@ SHFull ==
   [ sessionId |-> F(32, 60), ocspStapling |-> TRUE, ticketSupported |-> TRUE, secureRenegotiationSupported |-> TRUE,
     secureRenegotiation |-> F(24, 61), alpnProtocol |-> F(2, 62), scts |-> <<F(47, 63)>>, supportedVersion |-> <<3, 4>>,
     serverShare |-> KS(<<0, 29>>, 32, 64), selectedIdentityPresent |-> TRUE, selectedIdentity |-> <<0, 0>>, cookie |-> F(9, 65),
-    supportedPoints |-> <<0>>, extendedMasterSecret |-> TRUE, unknownExtensions |-> <<Unk(65000, 3, 66)>> ]
+    supportedPoints |-> <<0>>, extendedMasterSecret |-> TRUE, unknownExtensions |-> <<Unk(65000, 0, 66)>> ]
 
 CertVariants(f) == <<
   V(f :> Cert(<<F(1, 1)>>, <<>>, <<>>)), V(f :> Cert(<<F(300, 2), F(1, 3), F(77, 4)>>, <<>>, <<>>)),
@@ -226,27 +226,29 @@ Values(t) == {v \in Candidates(t) : Fits(t, v) /\ Valid(t, v)}
 
 ----------------------------------------------------------------------------
 (* checks on the specification itself *)
-RoundTripOK(t) == \A v \in Values(t) : Parse(t, Layout(t, v)) = [ok |-> TRUE, v |-> v]
-
-SmallValues(t) == {v \in Values(t) : Len(Body(t, v)) <= 160}
-PF(t) == PrefixFreeOn(t, SmallValues(t))
 (* documented classification: the optional extension block of the hellos and the
    opaque bodies of ServerKeyExchange / ClientKeyExchange / Finished are "optional tails". *)
 NotPrefixFree == {"clientHelloMsg", "serverHelloMsg", "serverKeyExchangeMsg", "clientKeyExchangeMsg", "finishedMsg"}
-
-ValSeq(t) == SetToSeq(Values(t))
-CasesOf(t) == LET vs == ValSeq(t) pf == PF(t) IN
-              [i \in 1..Len(vs) |-> [t |-> t, v |-> vs[i], bytes |-> Layout(t, vs[i]), pf |-> pf]]
 FileOf(t) == OutPrefix \o t \o ".ndjson"
+BodyOf(t, lay) == IF Hdr(t) = -1 THEN lay ELSE DropB(lay, 4)
 
 CheckType(t) ==
+  LET vals == SetToSeq(Values(t))                                   \* each value and its layout are computed once
+      lay == [i \in 1..Len(vals) |-> Layout(t, vals[i])]
+      small == {i \in 1..Len(vals) : Len(lay[i]) <= 164}
+      \* RoundTrip: parsing the layout gives the value back
+      rt == \A i \in 1..Len(vals) : Parse(t, lay[i]) = [ok |-> TRUE, v |-> vals[i]]
+      \* grammar-level prefix-freeness on the small values
+      pf == \A i \in small : LET b == BodyOf(t, lay[i]) IN \A k \in 0..(Len(b) - 1) : ~BodyParse(t, TakeB(b, k)).ok
+      cases == [i \in 1..Len(vals) |-> [t |-> t, v |-> vals[i], bytes |-> lay[i], pf |-> pf]]
+  IN
   /\ Assert(Fits(t, Base(t)) /\ Valid(t, Base(t)), <<"base value not valid", t>>)
-  /\ Assert(RoundTripOK(t), <<"Parse(Layout(v)) # v", t>>)
-  /\ Assert(PF(t) = (t \notin NotPrefixFree), <<"prefix-freeness classification", t, PF(t)>>)
-  /\ Assert(SmallValues(t) # {}, <<"no small values", t>>)
-  /\ ndJsonSerialize(FileOf(t), CasesOf(t))
-  /\ PrintT(ToJson([wire |-> t, candidates |-> Cardinality(Candidates(t)), values |-> Len(ValSeq(t)),
-                      small |-> Cardinality(SmallValues(t)), pf |-> PF(t)]))
+  /\ Assert(rt, <<"Parse(Layout(v)) # v", t>>)
+  /\ Assert(pf = (t \notin NotPrefixFree), <<"prefix-freeness classification", t, pf>>)
+  /\ Assert(small # {}, <<"no small values", t>>)
+  /\ ndJsonSerialize(FileOf(t), cases)
+  /\ PrintT(ToJson([wire |-> t, candidates |-> Cardinality(Candidates(t)), values |-> Len(vals),
+                      small |-> Cardinality(small), pf |-> pf]))
 
 (* The per-type work is hung on a tiny state graph so that TLC's workers share it:
    stage 0 --(pick a type)--> stage 1 --> stage 2; the invariant does the work at stage 2,
